@@ -202,7 +202,7 @@ def trace_graph(g):
        between : from.pos + sum(size + (stretch if the edge is stretchy)),
                  stretch = max(0, (separation - extent) / stretches) of the longest path
     The wrappers call the original methods and do not alter any result."""
-    how, walked, rule_ok = {}, {}, {}
+    how, walked, rule_ok, squeezed = {}, {}, {}, {}
     o_longest, o_fixed1, o_s1 = g.assign_longest, g.assign_fixed1, g.assign_stretchy1
     TOL = 1e-9
 
@@ -212,10 +212,12 @@ def trace_graph(g):
     def byname():
         return dict((_gname(gn), gn) for gn in g.values())
 
-    def settle(before, branch, expected, on_path=None):
+    def settle(before, branch, expected, on_path=None, squeeze=False):
         nodes = byname()
         for n in before - unknown_names():
             how[n] = branch
+            if squeeze:
+                squeezed[n] = True
             if on_path:
                 walked[n] = on_path
             rule_ok[n] = bool((n in expected) and abs(nodes[n].pos - expected[n]) < TOL)
@@ -253,6 +255,7 @@ def trace_graph(g):
         branch = '?'
         on_path = []
         expected = {}
+        squeeze = False
         try:
             to_path = g.path_to_closest_known(gnode, forward=True)
             from_path = g.path_to_closest_known(gnode, forward=False)
@@ -273,6 +276,9 @@ def trace_graph(g):
                 path = g.longest_path(fg, tg)
                 stretches, separation, extent = path.stretches, tg.pos - fg.pos, path.dist
                 stretch = 0 if stretches == 0 else max(0, (separation - extent) / stretches)
+                # the two placed nodes are closer than the minimum extent of the path between them
+                # (lcapy prints "Inconsistent ... component(s) will not fit")
+                squeeze = bool(extent - separation > 1e-6)
                 pos = fg.pos
                 for edge in fedges:
                     pos += edge.size + (stretch if edge.stretch else 0)
@@ -285,11 +291,11 @@ def trace_graph(g):
         except Exception:
             pass
         r = o_s1(gnode, unknown)
-        settle(before, branch, expected, on_path)
+        settle(before, branch, expected, on_path, squeeze)
         return r
 
     g.assign_longest, g.assign_fixed1, g.assign_stretchy1 = assign_longest, assign_fixed1, assign_stretchy1
-    return how, walked, rule_ok
+    return how, walked, rule_ok, squeezed
 
 
 def raw_solve(sch, method, out):
@@ -297,7 +303,7 @@ def raw_solve(sch, method, out):
     placer = schemplacer(sch.elements, sch.nodes, method, 0)
     placer._make_graphs()
     for ax, g in (('x', placer.xgraph), ('y', placer.ygraph)):
-        how, walked, rule_ok = trace_graph(g) if method == 'graph' else (None, None, None)
+        how, walked, rule_ok, squeezed = trace_graph(g) if method == 'graph' else (None, None, None, None)
         with warnings.catch_warnings(record=True) as wl:
             warnings.simplefilter('always')
             try:
@@ -311,6 +317,7 @@ def raw_solve(sch, method, out):
             out[ax]['assigned'] = how
             out[ax]['walked'] = walked
             out[ax]['rule_ok'] = rule_ok
+            out[ax]['squeezed'] = squeezed
         if method == 'lineq':
             # what Lineq.solve itself reported, and the shape of its LU factor (root-cause signatures)
             negs = []
